@@ -157,6 +157,7 @@ func (r *beRun) modeTTL() {
 		if exp > now {
 			// R3: reads strictly before the instant are fresh ...
 			if exp-1 > now {
+				out.fault("clock_jump")
 				time.Sleep(time.Duration(exp - 1 - now))
 			}
 
@@ -328,6 +329,8 @@ func (r *beRun) modeJanitor() {
 
 		before := r.janitor.Wakes
 
+		out.fault("clock_jump")
+
 		if v := e.s.Advance(dur(op.SleepNs)); v != zs.Quiescent {
 			out.Internal = "advance: " + v.String() + " " + e.s.StuckInfo
 
@@ -339,6 +342,9 @@ func (r *beRun) modeJanitor() {
 		}
 
 		cycles += r.janitor.Wakes - before
+		for i := 0; i < r.janitor.Wakes-before; i++ {
+			out.fault("janitor_cycle")
+		}
 		wake, blocked := r.janitor.LastWakeNs, r.janitor.LastBlockNs
 		bLo, bHi := wake-int64(dea), blocked-int64(dea)
 
@@ -564,6 +570,8 @@ func (r *beRun) modeEvict() {
 		wakes, needBefore := r.janitor.Wakes, len(r.needCalls)
 		evictMetricBefore := r.evictMetric()
 
+		out.fault("clock_jump")
+
 		if v := e.s.Advance(dur(op.SleepNs)); v != zs.Quiescent {
 			out.Internal = "advance: " + v.String() + " " + e.s.StuckInfo
 
@@ -581,6 +589,7 @@ func (r *beRun) modeEvict() {
 		}
 
 		cycles++
+		out.fault("janitor_cycle")
 		after := walkSet()
 
 		// entries expired longer than DeleteExpiredAfter are purged by the cleanup job before
